@@ -72,6 +72,10 @@ class EvalMixin:
                 return st.res[name]
             if name == "me":
                 return SV("int", self.me)
+            if name == "LASTKW":
+                return SV("sdict", (self.harr(st, "#LASTKWDOM"), self.harr(st, "#LASTKWMAP")))
+            if name == "UNSET":
+                return SV("val", Val.ClsV(z3.IntVal(-1)))
             if name in SP.SPECFUNS or name in self.spec_builtins:
                 return SV("specfun", name)
             if name.isupper() and ("#" + name) in ["#" + g for g in self.ghost_names()]:
@@ -236,6 +240,9 @@ class EvalMixin:
 
     def ev_List(self, e, st):
         def k(s, vs):
+            if s.spec and vs and all(v.k == "ev" for v in vs):
+                units = [z3.Unit(v.t) for v in vs]
+                return [Res(s, SV("seqe", units[0] if len(units) == 1 else z3.Concat(*units)))]
             seq = self.mkseq([box(self.heapify(s, v)) for v in vs])
             if s.spec:
                 return [Res(s, SV("seq", seq))]
@@ -308,7 +315,7 @@ class EvalMixin:
             if r.exc is not None:
                 out.append(r)
                 continue
-            for s2, b in self.fork(r.st, self.truth(r.st, r.val)):
+            for s2, b in self.fork(r.st, self.truth(r.st, r.val), self.ordinal(e, "ifexp")):
                 out.extend(self.ev(e.body if b else e.orelse, s2))
         return out
 
@@ -339,7 +346,7 @@ class EvalMixin:
                 if r.exc is not None or i == len(e.values) - 1:
                     out.append(r)
                     continue
-                for s2, b in self.fork(r.st, self.truth(r.st, r.val)):
+                for s2, b in self.fork(r.st, self.truth(r.st, r.val), self.ordinal(e.values[i], "boolop")):
                     if b == is_and:
                         out.extend(go(s2, i + 1))
                     else:
@@ -489,7 +496,7 @@ class EvalMixin:
         base = self.concretize(st, base)
         if base.k in ("list", "seq"):
             sq = base.t if base.k == "seq" else self.seq_of(st, base)
-        elif base.k in ("str", "bytes"):
+        elif base.k in ("str", "bytes", "seqe"):
             sq = base.t
         else:
             raise Unsupported("slice of " + base.k)
@@ -508,7 +515,7 @@ class EvalMixin:
         a = z3.simplify(a)
         b = z3.simplify(b)
         res = z3.Extract(sq, a, z3.If(b - a < 0, 0, b - a))
-        if base.k in ("str", "bytes"):
+        if base.k in ("str", "bytes", "seqe"):
             return [Res(st, SV(base.k, res))]
         if st.spec or base.k == "seq":
             return [Res(st, SV("seq", res, h=base.h))]
@@ -639,8 +646,7 @@ class EvalMixin:
             if attr == "__class__":
                 return [Res(st, SV("cls", clsof(obj.t)))]
             h = self.field_hint("role:" + obj.h, attr) if obj.h else None
-            iface = SP.INTERFACES.get(obj.h) if obj.h else None
-            if iface and attr in iface.calls:
+            if obj.h and ("iface::%s.%s" % (obj.h, attr)) in SP.CONTRACTS:
                 return [Res(st, SV("meth", (obj, attr)))]
             return [Res(st, self.from_val(st, self.hget(st, attr, obj.t), h))]
         if k == "cls":
@@ -667,7 +673,8 @@ class EvalMixin:
         if k in ("list", "dict", "str", "bytes", "seq", "sdict", "cset", "sset", "ctxvar", "float", "int"):
             return [Res(st, SV("meth", (obj, attr)))]
         if k == "ev":
-            acc = {"tag": (Ev.tag, "str"), "a": (Ev.a, "val"), "b": (Ev.b, "val"), "c": (Ev.c, "val"), "d": (Ev.d, "val")}[attr]
+            acc = {"tag": (Ev.tag, "str"), "a": (Ev.a, "val"), "b": (Ev.b, "val"), "c": (Ev.c, "val"), "d": (Ev.d, "val"),
+                   "e": (Ev.e, "val"), "f": (Ev.f, "val"), "g": (Ev.g, "val")}[attr]
             return [Res(st, SV(acc[1], acc[0](obj.t)))]
         if k == "val":
             if st.spec or self.implied(st, Val.is_RefV(obj.t)):
